@@ -139,6 +139,10 @@ func generate(g *Gen, prop string, n int, w *bufio.Writer) {
 		for i := 0; i < n; i++ {
 			g.genParse(np())
 		}
+	case "C15":
+		for i := 0; i < n; i++ {
+			g.genFloat(np())
+		}
 	case "C17":
 		for i := 0; i < n; i++ {
 			g.genGob(np())
